@@ -37,6 +37,13 @@ def step : Sexp → Option Sexp
       let p ← decProgram prog
       pure (list [atom "result", list [],
         if fissionSimple (mainBody p) then encProgram (mapUnits dropComments (mapMain fissionBody p)) else atom "excluded"])
+  | list (atom "fusion-c" :: prog :: _) => do
+      let p ← decProgram prog
+      pure (list [atom "result", list [],
+        if fusionSimple (mainBody p) then encProgram (mapUnits dropComments (mapMain fusionBody p)) else atom "excluded"])
+  | list (atom "interchange-n" :: prog :: _) => do
+      let p ← decProgram prog
+      pure (list [atom "result", list [], encProgram (mapUnits dropComments (mapMain interchangeBody p))])
   | list (atom "interchange" :: prog :: _) => do
       let p ← decProgram prog
       pure (list [atom "result", list [], encProgram (mapUnits dropComments (mapMain interchangeBody p))])
